@@ -7,6 +7,8 @@ mod c13;
 mod c15;
 mod c16;
 mod c18;
+mod c19;
+mod capi;
 
 fn main() {
     // Silence the default panic printer: panics are observations here, reported as data.
@@ -26,6 +28,7 @@ fn main() {
         "c15" => c15::main(&rest),
         "c16" => c16::main(&rest),
         "c18" => c18::main(&rest),
+        "c19" => c19::main(&rest),
         "c18one" => {
             let spec = rest.first().cloned().unwrap_or_default();
             let imp = rest.get(1).cloned().unwrap_or_default();
